@@ -27,6 +27,8 @@ pub struct Case {
     pub jseed: u64,
     pub capacity: Option<usize>,
     pub rscript: RScript,
+    /// tolerated error classes (never invalid ids: then the junk might be read as raw tags)
+    pub allow: u8,
 }
 
 /// Bytes that cannot begin an id of the specification: every byte value that is not the first byte
@@ -56,7 +58,7 @@ fn check_one(c: &Case, e: &Encoded, b: usize, junk: &[u8], st: &mut Stats) -> Re
     bytes.extend_from_slice(&e.bytes[b..]);
     let n = bytes.len();
     let input = Arc::new(bytes);
-    let cfg = IterCfg { capacity: c.capacity, ..Default::default() };
+    let cfg = IterCfg { capacity: c.capacity, allow: c.allow & !crate::harness::ALLOW_IDS, ..Default::default() };
     let tr = run_reader(&c.spec, &ReaderSetup { input: input.clone(), virtual_tail: 0, cfg: &cfg, script: &c.rscript, driver: &Driver::Recovering { max_errors: 64, extra: 0 }, max_steps: 6 * n + 64, keep_read_log: false });
     st.add("api_calls", tr.api_calls as u64);
     st.add("read_calls", tr.read_calls as u64);
@@ -172,7 +174,7 @@ impl Check for C14 {
         o.max_nodes = *rng.pick(&[3usize, 8, 20]);
         let doc = gen::gen_doc(&mut rng, &spec, &o);
         let n = enc::encode(&doc).bytes.len();
-        Case { spec, doc, at: None, jseed: rng.next(), capacity: io::gen_capacity(&mut rng, n), rscript: io::gen_rscript(&mut rng, n, &[]) }
+        Case { spec, doc, at: None, jseed: rng.next(), capacity: io::gen_capacity(&mut rng, n), rscript: io::gen_rscript(&mut rng, n, &[]), allow: *rng.pick(&[0u8, 0, 0, crate::harness::ALLOW_HIER, crate::harness::ALLOW_OVERSIZE, crate::harness::ALLOW_HIER | crate::harness::ALLOW_OVERSIZE]) }
     }
 
     fn exec(&self, c: &Case, st: &mut Stats) -> Result<ExecOk, Fail> {
@@ -207,7 +209,7 @@ impl Check for C14 {
 
     fn fingerprint(&self, c: &Case) -> u64 {
         let mut f = Fp::default();
-        f.bytes(&enc::encode(&c.doc).bytes).u(c.jseed);
+        f.bytes(&enc::encode(&c.doc).bytes).u(c.jseed).u(c.allow as u64);
         if let Some((b, j)) = &c.at {
             f.u(*b as u64).bytes(j);
         }
@@ -221,7 +223,7 @@ impl Check for C14 {
         json!({
             "spec": c.spec.to_j(), "doc": enc::doc_to_j(&c.doc),
             "at": c.at.as_ref().map(|(b, j)| json!({"boundary": b, "junk": bytes_to_j(j)})),
-            "jseed": c.jseed, "capacity": c.capacity, "rscript": c.rscript.to_j(),
+            "jseed": c.jseed, "capacity": c.capacity, "rscript": c.rscript.to_j(), "allow": c.allow,
             "encoded": bytes_to_j(&enc::encode(&c.doc).bytes),
         })
     }
@@ -238,6 +240,7 @@ impl Check for C14 {
             jseed: j.get("jseed").and_then(|v| v.as_u64()).unwrap_or(0),
             capacity: j.get("capacity").and_then(|c| c.as_u64()).map(|c| c as usize),
             rscript: RScript::from_j(j.get("rscript").ok_or("rscript")?)?,
+            allow: j.get("allow").and_then(|v| v.as_u64()).unwrap_or(0) as u8,
         })
     }
 
@@ -258,6 +261,9 @@ impl Check for C14 {
             Some((b, junk)) => {
                 if !c.rscript.is_whole() || c.capacity.is_some() {
                     v.push(Case { rscript: RScript::whole(), capacity: None, ..c.clone() });
+                }
+                if c.allow != 0 {
+                    v.push(Case { allow: 0, ..c.clone() });
                 }
                 if junk.len() > 1 {
                     v.push(Case { at: Some((*b, junk[..1].to_vec())), ..c.clone() });
@@ -281,7 +287,7 @@ impl Check for C14 {
     }
 
     fn rule(&self) -> &'static str {
-        "One case = specification (no id begins with 0x08-0x0F) + valid known-size document for which EVERY tag boundary (including 0 and the end) receives 3 drawn junk runs of 1-12 bytes from the byte values that begin no id of the specification (always including 0x00 and the 5-byte-id markers 0x08..0x0F); driver: next() until an error, try_recover(), continue. When, by the layout, the following tag shifted by the junk length still fits every enclosing known-size master: tags before unchanged, exactly one error, try_recover() Ok, all remaining tags identical with offsets shifted. Always: non-End offsets strictly increase, no panic, try_recover() fails only with UnexpectedEOF/ReadError. Non-trivial: document with at least two elements. 'evaluations' counts documents; insertions are in counters.junk_insertions."
+        "One case = specification (no id begins with 0x08-0x0F) + valid known-size document for which EVERY tag boundary (including 0 and the end) receives 3 drawn junk runs of 1-12 bytes from the byte values that begin no id of the specification (always including 0x00 and the 5-byte-id markers 0x08..0x0F); driver: next() until an error, try_recover(), continue; half of the documents are read with hierarchy problems and/or oversized children tolerated (never invalid ids, under which junk could be read as raw tags). When, by the layout, the following tag shifted by the junk length still fits every enclosing known-size master: tags before unchanged, exactly one error, try_recover() Ok, all remaining tags identical with offsets shifted. Always: non-End offsets strictly increase, no panic, try_recover() fails only with UnexpectedEOF/ReadError. Non-trivial: document with at least two elements. 'evaluations' counts documents; insertions are in counters.junk_insertions."
     }
     fn assumptions(&self) -> Vec<&'static str> {
         vec!["junk bytes are drawn from byte values that are not the first byte of any id of the specification in force (0x00 has no length marker; 5-byte ids are kept out of the generated specifications so that long-id markers are always available)", "the precondition of the main clause is evaluated on the reference encoder's layout"]
